@@ -808,7 +808,11 @@ func (u *Unit) applyContract(st *State, fr *Frame, site ssa.Instruction, callee 
 		post.key = fmt.Sprintf("%s.ens%d", name, i)
 		g, err := post.EvalBool(cl.Expr)
 		if err != nil {
-			u.specError(cl, err)
+			// a clause that needs the callee's locals cannot be used by a caller (it is
+			// checked in the callee's own unit, where a real error would surface)
+			if !strings.Contains(err.Error(), "unknown identifier") {
+				u.specError(cl, err)
+			}
 			continue
 		}
 		st.Assume(g)
